@@ -24,6 +24,7 @@ structure Obs where
   opaqueOK : Bool := true               -- the opaque token decrypts (provider key) to "<stored id>:<subject>" and does not under another key
   expiresInOK : Bool := true            -- expires_in agrees with the stored expiry (± 2 s + skew)
   scopeOK : Bool := true                -- `scope` in the response equals the stored scopes
+  atUserClaims : List String := []      -- private (non-registered) claim names present in the JWT access token
   deriving Repr, Inhabited
 
 /-- what the underlying request was -/
@@ -39,6 +40,13 @@ structure Req where
   skew : Int := 0                       -- client clock skew, seconds
   assertUserinfo : Bool := false        -- IDTokenUserinfoClaimsAssertion
   withAccessToken : Bool := true        -- the response also carries an access token (then userinfo scopes are stripped unless asserted)
+  -- the client's registration may restrict which of the granted scopes yield claims, separately per token kind
+  -- (`RestrictAdditionalIdTokenScopes` / `RestrictAdditionalAccessTokenScopes`): the granted scopes as restricted for ...
+  idScopes : List String := []          -- ... ID tokens
+  atScopes : List String := []          -- ... JWT access tokens
+  -- the storage maps every scope it is asked about to its claims, so the claims of an ALLOWED scope must show ...
+  storageFillsID : Bool := false        -- ... in the ID token (userinfo setters)
+  storageFillsAT : Bool := false        -- ... in the JWT access token (private-claims getters)
   deriving Repr, Inhabited
 
 /-- user claims a scope entitles to -/
@@ -48,11 +56,38 @@ def claimsOf (scope : String) : List String :=
   else if scope == "phone" then ["phone_number", "phone_number_verified"]
   else if scope == "address" then ["address"]
   else if scope == "custom_scope" then ["custom_claim"]
+  else if scope == "custom_scope2" then ["custom_claim2"]
   else []
 
+def userinfoScopes : List String := ["profile", "email", "phone", "address"]
+
+/-- the scopes whose claims an ID token may carry: the granted scopes as the client restricts them FOR ID TOKENS, minus the
+    userinfo scopes when an access token is delivered alongside and the client does not ask for userinfo claims in the ID token -/
+def idTokenScopes (restricted : List String) (withAccessToken assertUserinfo : Bool) : List String :=
+  if withAccessToken && !assertUserinfo then restricted.filter (fun s => !userinfoScopes.contains s) else restricted
+
+/-- the scopes whose claims a JWT access token may carry: the granted scopes as the client restricts them FOR ACCESS TOKENS;
+    userinfo claims never go into an access token -/
+def accessTokenScopes (restricted : List String) : List String :=
+  restricted.filter (fun s => !userinfoScopes.contains s)
+
 def allowedUserClaims (r : Req) : List String :=
-  let effective := if r.withAccessToken && !r.assertUserinfo then r.scopes.filter (fun s => !["profile", "email", "phone", "address"].contains s) else r.scopes
-  effective.flatMap claimsOf
+  (idTokenScopes r.idScopes r.withAccessToken r.assertUserinfo).flatMap claimsOf
+
+def allowedAccessTokenClaims (r : Req) : List String :=
+  (accessTokenScopes r.atScopes).flatMap claimsOf
+
+/-- claims a storage that fills in every scope it is asked about (the reference storage) always yields for a scope -/
+def filledClaimsOf (scope : String) : List String :=
+  if scope == "profile" then ["name", "preferred_username"]
+  else if scope == "email" then ["email"]
+  else if scope == "phone" then ["phone_number"]
+  else if scope == "custom_scope" then ["custom_claim"]
+  else if scope == "custom_scope2" then ["custom_claim2"]
+  else []
+
+/-- with such a storage the claims of every ALLOWED scope must show in the token -/
+def expectedClaims (scopes : List String) : List String := scopes.flatMap filledClaimsOf
 
 def judge (r : Req) (o : Obs) : Option String :=
   (if o.hasIDToken then
@@ -70,6 +105,8 @@ def judge (r : Req) (o : Obs) : Option String :=
     else if !o.cHashOK then some "id_token:c_hash"
     else if !o.atHashOK then some "id_token:at_hash"
     else if !(o.userClaims.all (allowedUserClaims r).contains) then some "id_token:user-claims-beyond-granted-scopes"
+    else if r.storageFillsID && !((expectedClaims (idTokenScopes r.idScopes r.withAccessToken r.assertUserinfo)).all o.userClaims.contains) then
+      some "id_token:claims-of-an-allowed-scope-missing"
     else none
   else none)
   |>.orElse fun _ =>
@@ -77,6 +114,9 @@ def judge (r : Req) (o : Obs) : Option String :=
     if !o.atVerifies then some "access_token-rejected-by-op.VerifyAccessToken"
     else if o.atClaims.iss != r.issuer then some "access_token:iss"
     else if o.atClaims.sub != r.subject then some "access_token:sub"
+    else if !(o.atUserClaims.all (allowedAccessTokenClaims r).contains) then some "access_token:claims-beyond-granted-scopes"
+    else if r.storageFillsAT && !((expectedClaims (accessTokenScopes r.atScopes)).all o.atUserClaims.contains) then
+      some "access_token:claims-of-an-allowed-scope-missing"
     else none
   else if !o.opaqueOK then some "opaque-token-does-not-decrypt-to-id:subject" else none)
   |>.orElse fun _ =>
